@@ -334,3 +334,69 @@ Proof.
               repeat (destruct Hk as [Hk|Hk]; [discriminate Hk|]); exact Hk).
     left. left. split; [reflexivity|discriminate].
 Qed.
+
+(* ---- round 3: every theorem with hypotheses has a concrete non-trivial instance *)
+Definition np1_file : str :=
+  lit ("typeThis=imec" ++ nl ++ "imDatPrb_type=0" ++ nl ++ "imDatPrb_port=1" ++ nl ++ "imDatPrb_slot=2" ++ nl ++
+       "imAiRangeMax=0.6" ++ nl ++ "imSampRate=30000.5" ++ nl ++ "fileTimeSecs=2.5" ++ nl ++
+       "nSavedChans=4" ++ nl ++ "snsApLfSy=3,0,1" ++ nl ++
+       "~imroTbl=(0,4)(0 0 0 500 250 1)(1 0 0 50 125 1)(2 0 0 1000 250 1)(3 0 0 250 125 1)" ++ nl).
+Definition np1_entries : list (Z * Z * Z * Z * Z * option Z) :=
+  [(0, 0, 0, 500, 250, Some 1); (1, 0, 0, 50, 125, Some 1); (2, 0, 0, 1000, 250, Some 1); (3, 0, 0, 250, 125, Some 1)].
+(* hypotheses of C09_s2v_np1 / C09_counts / C09_ns_spec / C09_max_int_table / C09_sample2volts_table *)
+Example ex_np1 : exists d, read_meta np1_file = Some d /\
+  lookup (lit "imroTbl") d = Some (VStr (imro_text [0; 4] np1_entries)) /\
+  int2volt d = Some ((6, 1%nat), 512) /\ version d = Some V3B2 /\ is_np2 V3B2 = false /\
+  get_type d = Some (Some SAp) /\ nchannels d = Some 4 /\ sync_indices d = Some (3, 1) /\
+  lookup (lit "snsApLfSy") d = Some (VList [(3, O); (0, O); (1, O)]) /\
+  py_index (VList [(3, O); (0, O); (1, O)]) (-1) = Some (VNum (1, O)) /\
+  is_imec d = true /\ max_int d = Some 512 /\
+  lookup (lit "fileTimeSecs") d = Some (VNum (25, 1%nat)) /\ get_fs d = Some (VNum (300005, 1%nat)) /\
+  get_ns d = Some 75001 /\
+  option_map (fun r => snd r) (s2v d) =
+    Some (S2Imec [CG (500, O); CG (50, O); CG (1000, O); C1] [CG (250, O); CG (125, O); CG (250, O); C1]) /\
+  option_map (fun r => snd r) (sample2volts d) = Some [CG (500, O); CG (50, O); CG (1000, O); C1].
+Proof. eexists. split; [vm_compute; reflexivity|]. repeat split; vm_compute; reflexivity. Qed.
+
+Definition np2_file : str :=
+  lit ("typeThis=imec" ++ nl ++ "imDatPrb_type=24" ++ nl ++ "imAiRangeMax=0.5" ++ nl ++ "imMaxInt=8192" ++ nl ++
+       "nSavedChans=3" ++ nl ++ "snsApLfSy=0,3,0" ++ nl ++ "~imroTbl=(24,3)(0 0 0 0 0)(1 0 0 0 1)(2 0 0 0 2)" ++ nl).
+(* hypotheses of C09_s2v_np2: NP2.4, LF stream, no sync channel saved *)
+Example ex_np2 : exists d, read_meta np2_file = Some d /\
+  version d = Some VNP24 /\ int2volt d = Some ((5, 1%nat), 8192) /\ sync_indices d = Some (3, 0) /\
+  option_map (fun r => snd r) (s2v d) =
+    Some (S2Imec [CG (80, O); CG (80, O); CG (80, O)] [CG (80, O); CG (80, O); CG (80, O)]).
+Proof. eexists. split; [vm_compute; reflexivity|]. repeat split; vm_compute; reflexivity. Qed.
+
+Definition nidq_file : str :=
+  lit ("typeThis=nidq" ++ nl ++ "niAiRangeMax=5" ++ nl ++ "niMNGain=200" ++ nl ++ "niMAGain=2.5" ++ nl ++
+       "snsMnMaXaDw=2,1,2,1" ++ nl ++ "nSavedChans=6" ++ nl ++ "niSampRate=30003.0003" ++ nl).
+(* hypotheses of C09_s2v_nidq / C09_analog_sync_table / C09_type_table (nidq row) *)
+Example ex_nidq : exists d, read_meta nidq_file = Some d /\
+  lookup (lit "imroTbl") d = None /\ get_type d = Some (Some SNidq) /\ is_imec d = false /\
+  int2volt d = Some ((5, O), 32768) /\ analog_sync d = Some (3, 2) /\ sync_indices d = Some (5, 1) /\
+  option_map (fun r => snd r) (s2v d) =
+    Some (S2Nidq [CG (200, O); CG (200, O); CG (25, 1%nat); CG (1, O); CG (1, O); C1]).
+Proof. eexists. split; [vm_compute; reflexivity|]. repeat split; vm_compute; reflexivity. Qed.
+
+(* hypotheses of C09_serial_table: both keys present, the first one falsy *)
+Example ex_serial : exists d,
+  read_meta (lit ("imProbeSN=0" ++ nl ++ "imDatPrb_sn=18005116811" ++ nl)) = Some d /\
+  lookup (lit "serial") d = Some (VInt 18005116811).
+Proof. eexists. split; vm_compute; reflexivity. Qed.
+
+(* hypotheses of C09_float_*_roundtrip are consistent: a (small) float type satisfying them — the
+   naturals with rd = truncation; binary64 with NumPy's shortest-digits printing is the intended one *)
+Example ex_float_hyps :
+  let rd := fun d : dec => Z.to_nat (dec_trunc d) in
+  let repr := fun n : nat => (Z.of_nat n, O) in
+  (forall x, normd (repr x)) /\ (forall x, rd (repr x) = x) /\
+  (forall x, true = true -> 0 <= Z.of_nat x /\ rd (Z.of_nat x, O) = x).
+Proof.
+  cbv zeta. assert (E : forall x : nat, Z.to_nat (dec_trunc (Z.of_nat x, O)) = x).
+  { intros x. rewrite dec_trunc_int by reflexivity. cbn [fst]. apply Nat2Z.id. }
+  split; [|split].
+  - intros x. split; [apply Nat2Z.is_nonneg|now left].
+  - exact E.
+  - intros x _. split; [apply Nat2Z.is_nonneg|apply E].
+Qed.
